@@ -239,9 +239,12 @@ MANIFEST_TEXT = ('Machine-checked proof (Coq) over a model of the stale-flag pro
                  'FIELDS (goal order matters) and per-solution aggregates: for any table of sound handlers every key / aggregate of '
                  'the computed `good` sets equals its function of the tours after accept_route_state / every insertion / '
                  'accept_solution_state, objective values are a function of the tours (full modelled goal); machine-checked '
-                 'counterexamples for three defects of the work balance feature (C05-F3 per-route value never refreshed at '
-                 'hand-over, C05-F4 values / objective computed before the state they read is refreshed, C05-F5 aggregates count a '
-                 'job-less tour removed after the refresh). The feature table of the Coq instantiation is compared on every run '
+                 'counterexamples for defects of the work balance feature: C05-F3 per-route value never refreshed at hand-over and '
+                 'C05-F5 aggregates count a job-less tour removed after the refresh (both repaired in /repo by 5d6f1d2 / 38e261f: the '
+                 'pre-fix table / restore order is kept for the witnesses, the statements about the code as it is are proved: route '
+                 'values fresh at hand-over, restore aggregates = fold over the tours that remain), C05-F4 values / objective '
+                 'computed before the state they read is refreshed (open), C05-F6 a tour emptied by a state handler of the same '
+                 'refresh is still counted (open). The feature table of the Coq instantiation is compared on every run '
                  'with the handlers / state keys extracted from the `impl FeatureState` blocks of the source.')
 MANIFEST_NOTE = ('Trusted: Coq kernel+vm_compute; the two cfg-gated hooks; harness rebuild; generators. The feature table '
                  '(which handler recomputes which field) is instantiated by reading the FeatureState impls, validated by the digests. '
